@@ -2,7 +2,7 @@
    executable curves of Crypto/Secp256k1.v, evaluated on cases produced by harness/src/bin/ecdsa.rs
    (inputs + what the real back-ends returned). *)
 From Coq Require Import ZArith List Bool.
-From FV Require Import Base.Bytes Crypto.EcdsaModel Crypto.Secp256k1.
+From FV Require Import Base.Bytes Crypto.EcdsaModel Crypto.Secp256k1 Crypto.VmCryptoModel.
 Import ListNotations.
 Open Scope Z_scope.
 
@@ -58,7 +58,8 @@ Inductive ecase :=
 | EPub (d pk : bytes)                                     (* k1 public key of secret d *)
 | ESign (d msg sig : bytes)                               (* k1: sig = sign(d, msg) by the library *)
 | ER1 (sig msg : bytes) (rec : option bytes)              (* secp256r1::recover *)
-| EFmt (sig stripped : bytes).                            (* Signature::remove_recovery_id *)
+| EFmt (sig stripped : bytes)                             (* Signature::remove_recovery_id *)
+| EVm (ops : list vmop).                                  (* ECK1/ECR1/ED19 in one script: $err, output after each op *)
 
 Definition check_ecase (c : ecase) : bool :=
   match c with
@@ -77,6 +78,7 @@ Definition check_ecase (c : ecase) : bool :=
       obytes_eqb (m_recover K1 (lib_rules K1) sig msg) (m_public_key K1 d)
   | ER1 sig msg r => obytes_eqb (m_recover R1 (p256_rules R1) sig msg) r
   | EFmt sig stripped => bytes_eqb (fst (decode_signature sig)) stripped
+  | EVm ops => vm_seq_ok 0%N ops
   end.
 
 Lemma verify_rules_shared C sig Q msg :
